@@ -105,6 +105,14 @@ CLAIMS.update({
         design='§6 C16'),
 })
 
+CLAIMS.update({
+    'C15': dict(
+        text='Lean 4 theorems about a model of the precis-tools generators (HashSet/sort/run-compression set tables incl. virama, the unassigned-gap tracker with its quirky range state, the bidi run compressor, the width table, First/Last folding): for EVERY well-formed list of UnicodeData rows (ascending, disjoint, any subset of code points, any placement of ranges next to singles, any run structure) each generator succeeds, the emitted table denotes exactly the code points and values the input assigns, and it is sortedTable — which by the verified binary search (C18/Bsearch) means a search finds the entry containing a code point iff one exists and no code point is covered twice. Tied to the code by running the REAL generators (through RustCodeGen/UcdFileGen/ucd-parse/the text writer) on hundreds (thorough: thousands) of synthetic well-formed UCD directories incl. 17 hand-picked run structures, parsing the emitted files back and comparing entry for entry with the model and with an independent denotation check; and by reproducing the tables of the two pinned data sets (6.3.0, 16.0.0) with the model generators. The pinned tables themselves are also kernel-compared with independently parsed UCD data in C03/C09/C11/C12/C14.',
+        note='Trusted: Lean kernel; the generator model (validated by the correspondence); ucd-parse row syntax and the file writer are inside the compared path, not the model. UcdTableGen instances for Scripts/PropList/DerivedCoreProperties/HangulSyllableType/DerivedJoiningType share the set-table code path proved here and are checked on the pinned data by the kernel facts of C03/C14.',
+        technique='Lean 4 proof (loop invariants over the row fold for each generator) + differential correspondence with the real generators on synthetic UCD directories',
+        design='§6 C15'),
+})
+
 NOT_YET = {}
 
 
